@@ -696,7 +696,7 @@ func (db *DB) Prepare(sql string, stmt Stmt) (*Prepared, error) {
 		if err != nil {
 			return nil, err
 		}
-		for _, c := range append(append(append([]string(nil), s.KeyCols...), s.PartCols...), s.OrderCol) {
+		for _, c := range append(append(append([]string(nil), s.KeyCols...), s.PartCols...), s.OrderCols...) {
 			if t.Col(c) < 0 {
 				return nil, pgErr("42703", "column %q does not exist", c)
 			}
@@ -1512,7 +1512,7 @@ func (tx *Tx) execStmt(stmt Stmt, params []Value) (*ExecResult, error) {
 			}
 			return sb.String()
 		}
-		partIx, keyIx, ordIx := idx(s.PartCols), idx(s.KeyCols), t.Col(s.OrderCol)
+		partIx, keyIx, ordIx := idx(s.PartCols), idx(s.KeyCols), idx(s.OrderCols)
 		all := tx.rows(t)
 		parts := map[string][]*Row{}
 		var order []string
@@ -1528,20 +1528,31 @@ func (tx *Tx) execStmt(stmt Stmt, params []Value) (*ExecResult, error) {
 		for _, k := range order {
 			rs := parts[k]
 			sort.SliceStable(rs, func(i, j int) bool {
-				a, b := rs[i].Vals[ordIx], rs[j].Vals[ordIx]
-				switch {
-				case a == nil && b == nil:
-					return false
-				case a == nil:
-					return true // NULLS FIRST for desc
-				case b == nil:
-					return false
+				for k, oi := range ordIx {
+					a, b := rs[i].Vals[oi], rs[j].Vals[oi]
+					var c int
+					switch {
+					case a == nil && b == nil:
+						c = 0
+					case a == nil:
+						c = 1 // NULLs sort as larger than everything
+					case b == nil:
+						c = -1
+					default:
+						var err error
+						c, err = CompareValues(a, b)
+						if err != nil {
+							sortErr = err
+						}
+					}
+					if s.OrderDesc[k] {
+						c = -c
+					}
+					if c != 0 {
+						return c < 0
+					}
 				}
-				c, err := CompareValues(a, b)
-				if err != nil {
-					sortErr = err
-				}
-				return c > 0
+				return false
 			})
 			for i, r := range rs {
 				if int64(i) < keep {
